@@ -13,8 +13,8 @@ import (
 	"github.com/linxGnu/grocksdb"
 
 	"verif/harness/internal/fw"
-	lab "verif/harness/internal/mptlab"
 	"verif/harness/internal/model"
+	lab "verif/harness/internal/mptlab"
 )
 
 // Shared machinery of C04 (saved state complete, survives crashes during save) and
